@@ -106,6 +106,45 @@ def sweep(fx, R):
                     R.holds('H1', name, 'decided by the static-cache rule (E-PURE) of this property', fx.rel(f['loc']), 'E-PURE')
                 else:
                     R.undecided('H1', name, 'the function keeps state across calls in the non-const static `%s`; its results were read as functions of the arguments only' % v['name'])
+    # ---- H3: a user-provided copy constructor hands over every member the functions read --------------------------------------
+    from . import sym
+    classes = sorted({f.get('cls') for f in fns if f.get('cls')})
+    for cls in classes:
+        cps = [g for g in fx.functions.values() if g.get('copyctor') and g.get('cls') == cls and g.get('body') is not None]
+        rec = fx.records.get(cls) or {}
+        fields = [fl_['name'] for fl_ in rec.get('fields', []) if not fl_.get('static')
+                  and not (fl_.get('t') or {}).get('s', '').replace('mutable ', '').startswith(('std::mutex', 'std::shared_mutex', 'std::recursive_mutex', 'std::condition_variable', 'std::shared_timed_mutex'))]
+        if len(cps) != 1 or not fields:
+            continue
+        g = cps[0]
+        # members whose value on entry some function of the class (that this check read) uses
+        read = set()
+        for f in fns:
+            if f.get('cls') != cls or f.get('ctor'):
+                continue
+            for y in walk(f.get('body')):
+                if isinstance(y, dict) and y.get('k') == 'Member' and y.get('field') and y.get('name') in fields:
+                    read.add(y['name'])
+        inst = '%s:copy-constructor' % cls
+        try:
+            sts = sym.Reader(fx).run(g)
+        except sym.Unsupported as u:
+            R.undecided('H3', inst, 'user-provided copy constructor not interpretable: %s' % u)
+            continue
+        pname = g['params'][0]['name'] if g.get('params') else 'other'
+        lost = []
+        for st in sts:
+            for fl_ in fields:
+                vals = [str(v) for k_, v in st.fields.items() if len(k_) >= 2 and k_[0] == 'this' and k_[1] == fl_]
+                copied = any(('%s.%s' % (pname, fl_)) in v_ or ('arg:%s' % pname) == v_ for v_ in vals)
+                if not copied and fl_ in read:
+                    lost.append((fl_, vals[:1]))
+        if lost:
+            R.violated('H3', inst, 'the user-provided copy constructor does not hand over %s (it is left as %s); functions this property reads use that member, so a copy of a configured / filled object does not '
+                       'answer like the original (a std::vector of estimators, a pool, a by-value capture all go through it; a user-declared copy constructor also replaces the move)' % (
+                           ', '.join(sorted({l_[0] for l_ in lost})), (lost[0][1] or ['default-initialised'])[0][:80]), fx.rel(g['loc']), 'E-STATE')
+        else:
+            R.holds('H3', inst, 'every member the read functions use (%s) is taken from the source object' % ', '.join(sorted(read)), fx.rel(g['loc']), 'E-STATE')
     # ---- H2: single precision inside a double computation -----------------------------------------------------------------
     prec = PRECISION.get(getattr(R, 'prop', None))
     if prec is not None:
